@@ -1,4 +1,4 @@
-\* probe
+\* quick: two leasers, handoff between them (Lease.Handoff -> HandoffCh -> AcquireExisting by the other node), failing requests and expiry; one script per explored edge
 SPECIFICATION Spec
 CONSTANTS
   Nodes = {"n1","n2"}
